@@ -26,6 +26,14 @@ def workdir(name):
     # unique per process: two checks may run at the same time
     d = os.path.join(WORK, "%s.%d" % (name, os.getpid()))
     shutil.rmtree(d, ignore_errors=True)
+    # scratch of finished earlier runs (their process is gone) is dropped so that the work area does not grow
+    try:
+        for e in os.listdir(WORK):
+            base, _, pid = e.rpartition(".")
+            if base == name and pid.isdigit() and int(pid) != os.getpid() and not os.path.exists("/proc/%s" % pid):
+                shutil.rmtree(os.path.join(WORK, e), ignore_errors=True)
+    except OSError:
+        pass
     os.makedirs(d, exist_ok=True)
     return d
 
